@@ -34,9 +34,15 @@ ERROR awkward_ListArray_combinations_length(
       }
       combinationslen = size;
       for (int64_t j = 2;  j <= thisn;  j++) {
+        if (size - j + 1 > 0  &&  combinationslen > 1152921504606846975 / (size - j + 1)) {
+          return failure("number of combinations is too large", i, kSliceNone, FILENAME(__LINE__));
+        }
         combinationslen *= (size - j + 1);
         combinationslen /= j;
       }
+    }
+    if (combinationslen > 1152921504606846975 - *totallen) {
+      return failure("number of combinations is too large", i, kSliceNone, FILENAME(__LINE__));
     }
     *totallen = *totallen + combinationslen;
     tooffsets[i + 1] = tooffsets[i] + combinationslen;
